@@ -4,7 +4,8 @@ Program recipe (plain JSON)
     {"mode": "implicit" | "explicit",      implicit: no memory spaces and no casts in the input (set-memory-space creates
                                            them); explicit: every memref type carries its space, cast chains are written out
      "elt": 8|16|32, "shape": [n] | [n, m],               element width and the shape every op operand has
-     "roots": [{"kind": "arg"|"alloc"|"glob"|"globu"|"const", "big": 0|1, "seed": int, "space": "L1"|"L3"}],
+     "roots": [{"kind": "arg"|"alloc"|"glob"|"globu"|"const", "big": 0|1, "seed": int, "space": "L1"|"L3", "gg": 0|1}],
+                                           gg: every access path of a global takes its own memref.get_global
      "layouts": [{"split": [inner tile per dim], "perm": int, "gap": 0|1}],      pool of target layouts of the operand shape
      "epochs": [{"paths": [path per root], "stmts": [stmt]}],
      "ret": [root ref], "vis": "public"|"none", "a2g": 0|1, "dead": 0|1, "plain": 0|1,
@@ -198,7 +199,7 @@ def program(draw, tier="quick", mode=None):
     nroots = draw(st.integers(1, 4))
     kinds = ["arg", "arg", "arg", "alloc", "alloc", "glob", "globu", "const"]
     roots = [dict(kind=draw(st.sampled_from(kinds)), big=draw(st.sampled_from([0, 0, 1])), seed=draw(st.integers(0, 4000)),
-                  space=draw(st.sampled_from(["L3", "L3", "L3", "L1"]))) for _ in range(nroots)]
+                  space=draw(st.sampled_from(["L3", "L3", "L3", "L1"])), gg=draw(st.sampled_from([0, 0, 0, 1]))) for _ in range(nroots)]
     nlay = draw(st.integers(1, 3))
     layouts = [draw(layout_spec(len(shape))) for _ in range(nlay)]
     nep = draw(st.sampled_from([1, 1, 2, 2, 3]))
@@ -283,7 +284,11 @@ def build(r) -> Built:
             else:
                 globals_txt.append(f'  "memref.global"() <{{sym_name = "{gname}", type = {mtype(rshape, elt)}, initial_value, sym_visibility = "private", alignment = 64 : i64}}> : () -> ()')
             b.global_names.append(gname)
-            top.append(f'    {nm} = "memref.get_global"() <{{name = @{gname}}}> : () -> {mtype(rshape, elt, None, sp)}')
+            if rt.get("gg"):
+                nm = None  # every access path takes its own memref.get_global
+                b.features.add("get_global-per-path")
+            else:
+                top.append(f'    {nm} = "memref.get_global"() <{{name = @{gname}}}> : () -> {mtype(rshape, elt, None, sp)}')
         else:  # const
             sp = (rt.get("space") or "L1") if explicit else None
             nm = f"%K{i}"
@@ -292,7 +297,6 @@ def build(r) -> Built:
             top.append(f'    {nm} = "arith.constant"() <{{value = {dense_text(data_values(rt.get("seed", 0), n, elt), rshape)} : {ty}}}> {{"c12.tag" = {100 + i} : i64}} : () -> {ty}')
         root_val.append((nm, rshape, sp))
         b.features.add("root:" + kind + ("+big" if rt.get("big") else ""))
-    b.root_names = [v[0] for v in root_val]
 
     loop_args: list[str] = []
     use_count: dict[str, list] = {}  # cast value -> [readers, writers]
@@ -311,6 +315,9 @@ def build(r) -> Built:
         """Emit subview + casts of root i; returns (ssa, type text, number of casts, memory space)."""
         nm, rshape, sp = root_val[i]
         layout = None
+        if nm is None:
+            nm = fresh("G")
+            out.append(f'{pad}{nm} = "memref.get_global"() <{{name = @g{i}}}> : () -> {mtype(rshape, elt, None, sp)}')
         cur = nm
         if not roots[i].get("big") and needs_fresh[i] and not path.get("casts"):
             strides_txt = ", ".join(str(math.prod(rshape[d + 1:])) for d in range(rank))
@@ -497,7 +504,13 @@ def build(r) -> Built:
         if nc >= 1 and nr + nw >= 2:
             b.shared_multi = True
 
-    rets = [root_val[v % nroots] for v in r.get("ret", [])]
+    rets = []
+    for v in r.get("ret", []):
+        nm, rshape, sp = root_val[v % nroots]
+        if nm is None:
+            nm = fresh("G")
+            body.append(f'    {nm} = "memref.get_global"() <{{name = @g{v % nroots}}}> : () -> {mtype(rshape, elt, None, sp)}')
+        rets.append((nm, rshape, sp))
     ret_names = ", ".join(v for v, _, _ in rets)
     ret_types = ", ".join(mtype(s, elt, None, sp) for _, s, sp in rets)
     all_args = args + [(a, "index") for a in loop_args]
